@@ -109,6 +109,15 @@ CLAIMED = {
              'evaluator; every ill-formed token sequence must be rejected. Held on the executions observed only.',
         note='Trusted: the 150-line reference evaluator/recogniser in vf/model/expr.py; domain restrictions listed in '
              'evidence.assumptions are DONT_CARE.'),
+    'C12': dict(
+        category='exploration', design_ref='DESIGN.md §3 C12',
+        technique='runtime monitoring: boundary-value constraint model (reference encoder) over one-statement real CLI runs',
+        text='For every constraint kind (numeric_bytecode and relative min/max from start and from end, numeric enumeration '
+             'membership, address / valid_address zone bounds for GLOBAL, redefined GLOBAL and a named zone, sliced addresses '
+             'across 2^k boundaries, field widths 1..64 signed/unsigned bounds for arguments, operand codes, indirect offsets and '
+             'relative offsets) the values on and next to each boundary are assembled one per run: reject iff a constraint is '
+             'violated, else the bytes must be the reference encoding. thorough sweeps every width 1..64.',
+        note='Trusted: vf/model/encode.py constraint rules; n-bit field accepts -2^(n-1) <= v < 2^n.'),
     'C17': dict(
         category='exploration', design_ref='DESIGN.md §3 C17',
         technique='runtime monitoring: metamorphic file-splitting oracle (split == unsplit == layout model) plus zone/scope '
